@@ -105,7 +105,7 @@ Fixpoint prefix_ok {A} (f : A -> A -> bool) (u v : list A) : bool :=
    8 leading iterates differ from the model run from x0 *)
 Record IstaR := { ir_id : nat; ir_n : nat; ir_mode : nat; ir_A : list (list Qc); ir_y : list Qc;
   ir_alpha : Qc; ir_alphac : Qc; ir_eps : Qc; ir_x0 : list Qc; ir_betas : list Qc; ir_traj : nat;
-  ir_pairs : list (list Qc * list Qc); ir_its : list (list Qc); ir_S : list (list Qc) }.
+  ir_pairs : list (list Qc * list Qc); ir_its : list (list Qc); ir_S : list (list Qc); ir_decay : list Qc }.
 (* with a sparsifying transform SOp = S (ir_S <> []), as coded in ISTA.step / FISTA.step:
      x_unthesh = SOp^H (z + alpha Op^H (y - Op z)) ; x = SOp (soft x_unthesh thresh)
    and the documented objective ||y - Op x||^2 + eps ||SOp^H x||_1 *)
@@ -118,15 +118,19 @@ Definition checkIstaR (c : IstaR) : list nat :=
   let n := ir_n c in let A := ir_A c in let y := ir_y c in
   let k := ir_traj c in
   let nos := match ir_S c with [] => true | _ => false end in
-  let stp := if nos then step QcO n A y (ir_alpha c) (ir_eps c) else stepS n (ir_S c) A y (ir_alpha c) (ir_eps c) in
+  (* user-supplied decay (ISTA.step: threshf(x_unthesh, decay[iiter] * thresh)): iteration i thresholds at
+     decay_i * eps * alpha / 2, i.e. a step with eps * decay_i; [] = all ones *)
+  let nod := match ir_decay c with [] => true | _ => false end in
+  let ds := if nod then map (fun _ => 1%Qc) (ir_pairs c) else ir_decay c in
+  let stp := fun (d : Qc) => if nos then step QcO n A y (ir_alpha c) (ir_eps c * d) else stepS n (ir_S c) A y (ir_alpha c) (ir_eps c * d) in
   let F := if nos then obj QcO A y (ir_eps c) else objS n (ir_S c) A y (ir_eps c) in
   let model := match ir_mode c with
      | O => ista_run QcO n k A y (ir_alpha c) (ir_eps c) (ir_x0 c)
      | _ => fista_run QcO n (firstn k (ir_betas c)) A y (ir_alpha c) (ir_eps c) (ir_x0 c, ir_x0 c) end in
-  (if forallb (fun p => vclose tol9 (snd p) (stp (fst p))) (ir_pairs c)
-      && Nat.eqb (length (ir_pairs c)) (length (ir_its c)) then [] else [1%nat]) ++
+  (if forallb (fun pd => vclose tol9 (snd (fst pd)) (stp (snd pd) (fst (fst pd)))) (combine (ir_pairs c) ds)
+      && Nat.eqb (length (ir_pairs c)) (length (ir_its c)) && Nat.eqb (length ds) (length (ir_pairs c)) then [] else [1%nat]) ++
   (match ir_mode c with
-   | O => if mono (map F (ir_x0 c :: ir_its c)) then [] else [2%nat]
+   | O => if negb nod || mono (map F (ir_x0 c :: ir_its c)) then [] else [2%nat]
    | _ => [] end) ++
   (if premise_ok n A (ir_alphac c) then [] else [3%nat]) ++
   (if wfMb n (length y) A && Nat.eqb (length (ir_x0 c)) n && forallb (fun v => Nat.eqb (length v) n) (ir_its c)
